@@ -506,10 +506,22 @@ bool splinetable<Alloc>::read_fits_core_impl(fitsfile* fits, const std::string& 
 			fits_get_num_hdus(fits, &n_hdus, &status);
 			fits_movabs_hdu(fits, n_hdus, &hdu_type, &status);
 			fits_get_hduaddrll(fits, &headstart, &datastart, &dataend, &status);
+			//(CFITSIO may have opened another file than the one named, e.g. a
+			//compressed copy with an added .gz: then there is nothing to
+			//compare with)
 			std::ifstream file(filePath.c_str(), std::ios::binary|std::ios::ate);
-			LONGLONG actualSize = file ? (LONGLONG)file.tellg() : -1;
-			//(anything shorter than one FITS record cannot be an extension)
-			if (status != 0 || actualSize < 0 || actualSize-dataend >= 2880)
+			LONGLONG actualSize = file ? (LONGLONG)file.tellg() : dataend;
+			//(anything shorter than one FITS record cannot be an extension;
+			//neither can a record which does not begin like one: fill or
+			//special records may follow the last HDU)
+			bool unreadExtension = (actualSize-dataend >= 2880);
+			if (status == 0 && unreadExtension) {
+				char start[8];
+				file.seekg(dataend);
+				if (file.read(start, 8) && std::string(start, 8) != "XTENSION")
+					unreadExtension = false;
+			}
+			if (status != 0 || unreadExtension)
 				throw std::runtime_error("Error looking for extents in "+filePath+": could not read all extensions");
 		}
 		fits_get_img_dim(fits, &ext_dim, &ext_error);
